@@ -109,6 +109,40 @@ func (a *artefact) asTracked(chainID string) tracked {
 	return tracked{ok: true, height: a.f.height, blockHash: a.hash, nextHash: a.f.nextHash, chainID: chainID}
 }
 
+// explain names the root cause of a forbidden move to post: the first link, walking back from
+// the header now tracked through the headers of the same transaction, that the reference
+// rule does not allow from the pre-state.
+func (c *simChain) explain(pre tracked, arts []*artefact, post tracked) (cause, detail string) {
+	idx := -1
+	for i, a := range arts {
+		if bytes.Equal(a.hash, post.blockHash) {
+			idx = i
+		}
+	}
+	if idx < 0 {
+		return "unknown-header", ""
+	}
+	for {
+		a := arts[idx]
+		ok, why := c.verdict(pre, a, true)
+		s, tot := a.tally()
+		detail = fmt.Sprintf("artefact %q: height %d (tracked %d), validators with a valid signature hold %d of %d", a.desc, a.f.height, pre.height, s, tot)
+		if ok {
+			return "record-fields-differ", detail
+		}
+		prev := -1
+		for j := idx - 1; j >= 0 && prev < 0; j-- {
+			if ok2, _ := c.verdict(arts[j].asTracked(pre.chainID), a, true); ok2 {
+				prev = j
+			}
+		}
+		if prev < 0 {
+			return why, detail
+		}
+		idx = prev
+	}
+}
+
 // reachable computes every record the light client may hold after processing the artefacts
 // of one transaction in order, accepting any sub-sequence the reference rule allows.
 func (c *simChain) reachable(pre tracked, arts []*artefact, strict bool) []tracked {
@@ -187,14 +221,19 @@ func (x *exec) depTx(a *artefact, height int64, ops []merkle.ProofOp, kp string,
 	return x.h.Signed(chain.CrossChain, ccom.IMPORT_OUTER_TRANSFER_NAME, chain.Args(p), x.h.User(x.relayer()))
 }
 
-// advanceCursor predicts the effect of a transaction on the tracked record: the handlers follow
-// every acceptable header that changes the validator set (others are skipped as not useful).
+// advanceCursor predicts what an honest relayer expects from a transaction (prediction only,
+// never part of the oracle): headers that do not change the validator set or are not above
+// the record are skipped, every other header must be acceptable or the whole call fails.
 func (x *exec) advanceCursor(arts []*artefact) {
 	s := x.cursor
 	for _, a := range arts {
-		if ok, _ := x.c.verdict(s, a, true); ok && !bytes.Equal(a.f.valsHash, a.f.nextHash) {
-			s = a.asTracked(s.chainID)
+		if bytes.Equal(a.f.valsHash, a.f.nextHash) || a.f.height <= s.height {
+			continue
 		}
+		if ok, _ := x.c.verdict(s, a, true); !ok {
+			return
+		}
+		s = a.asTracked(s.chainID)
 	}
 	x.cursor = s
 }
@@ -930,18 +969,7 @@ func (x *exec) judge(p *pendTx, t *e1.TxTrace, pre, post tracked) bool {
 			}
 		}
 		if !allowed {
-			cause := "unknown-header"
-			detail := ""
-			for _, a := range p.arts {
-				if bytes.Equal(a.hash, post.blockHash) {
-					_, cause = c.verdict(pre, a, true)
-					s, tot := a.tally()
-					detail = fmt.Sprintf("artefact %q: height %d (tracked %d), validators with a valid signature hold %d of %d", a.desc, a.f.height, pre.height, s, tot)
-					if cause == "" {
-						cause = "record-fields-differ"
-					}
-				}
-			}
+			cause, detail := c.explain(pre, p.arts, post)
 			run.Fail("C30", "epoch-advanced:"+cause+":"+c.fam.driver, "%s: tx [%s] advanced the tracked record %v -> %v although the reference rule forbids it (%s) %s", fam, p.label, pre, post, cause, detail)
 			return false
 		}
@@ -952,6 +980,9 @@ func (x *exec) judge(p *pendTx, t *e1.TxTrace, pre, post tracked) bool {
 			run.Probe("obs_foreign_chain_id_header_tracked")
 		}
 		run.Probe("epoch_advanced")
+		if a := x.findArt(p.arts, post); c.version(pre.height) < 11 && a.f.version >= 11 {
+			run.Probe("block_version_10_to_11_boundary_crossed")
+		}
 		run.Probe("epoch_advanced:" + fam)
 		if p.honest {
 			run.Probe("honest_switch_accepted")
@@ -971,6 +1002,7 @@ func (x *exec) judge(p *pendTx, t *e1.TxTrace, pre, post tracked) bool {
 			run.Probe("exact_two_thirds_submitted")
 			if !t.OK {
 				run.Probe("exact_two_thirds_rejected")
+				run.Probe("exact_two_thirds_rejected:" + fam)
 			}
 		}
 		if p.expect && p.honest && !t.OK {
